@@ -13,7 +13,8 @@ PROP = 'C04'
 RULE = ('cells = (20 named (biort,qshift) pairs, J in 1..5, HxW from 2..37 incl. odd / non-multiple-of-4 '
         '/ smaller than the filters / non-square); per cell impulse batch (S*A=I) and dense / '
         'dynamic-range / structured inputs through forward then inverse; distinct by (cell, input kind); '
-        'non-trivial when the input is not all-zero')
+        'non-trivial when the input is not all-zero'
+        '; the same round trip through converted module pairs (float32-built .double(), float64-built .float()) at float32 tap precision; one 7x1x1600x1600 round trip (large-input regime)')
 ASSUMPTIONS = ['float64; tolerance 1e-10 * analysis gain * synthesis gain * max|x|', 'sides <= 37, J <= 5']
 TIMEOUT = {'quick': 900, 'thorough': 3300}
 WORKER_BUDGET = {'quick': 600, 'thorough': 2700}
